@@ -991,6 +991,43 @@ pub fn c10(tier: Tier) -> Vec<Case> {
             }
         }
     }
+    // (1d) a choice whose last alternative is empty (the documented way to make a choice optional): the failures made
+    // inside the earlier alternatives stay on record when the empty one is taken
+    {
+        let inputs = InputSpec::Strings { alphabet: vec!['a', 'b', 'c', 'q', 'x'], max_len: if tier == Tier::Quick { 4 } else { 5 } };
+        let long = Rule::normal("Long", vec![Directive::String, Directive::NoSkipWs], seq(vec![lit("a"), lit("b"), lit("c")]));
+        let short = Rule::normal("Short", vec![Directive::String, Directive::NoSkipWs], seq(vec![lit("q"), lit("b")]));
+        let heads = vec![
+            choice(vec![field("tag", "Long"), field("tag", "Short"), seq(vec![])]),
+            choice(vec![seq(vec![lit("a"), lit("b"), lit("c")]), seq(vec![lit("q"), lit("b")]), seq(vec![])]),
+            choice(vec![field("tag", "Long"), seq(vec![])]),
+            choice(vec![seq(vec![lit("a"), lit("b"), lit("c")]), field("tag", "Short"), seq(vec![lit("q"), lit("q"), lit("q")]), seq(vec![])]),
+        ];
+        for h in &heads {
+            for (hi, placed) in [false, true].iter().enumerate() {
+                for tail in [seq(vec![lit("a"), lit("x"), Expr::Eoi]), seq(vec![lit("x"), Expr::Eoi]), seq(vec![opt(lit("a")), lit("q"), lit("x")])] {
+                    let g = if *placed {
+                        // the choice in a rule of its own
+                        Grammar {
+                            rules: vec![
+                                Rule::normal("Root", vec![Directive::Export, Directive::NoSkipWs], seq(vec![field("head", "Head"), tail.clone()])),
+                                Rule::normal("Head", vec![Directive::NoSkipWs], h.clone()),
+                                long.clone(),
+                                short.clone(),
+                            ],
+                        }
+                    } else {
+                        // the choice as a group inside the sequence
+                        Grammar { rules: vec![Rule::normal("Root", vec![Directive::Export, Directive::NoSkipWs], seq(vec![Expr::Group(Box::new(h.clone())), tail.clone()])), long.clone(), short.clone()] }
+                    };
+                    let _ = hi;
+                    if wf::well_formed(&g) {
+                        b.add("errors/empty-last-alternative", g, inputs.clone());
+                    }
+                }
+            }
+        }
+    }
     // (2) memoized grammars: the offset must be real
     let minputs = memo_inputs(tier);
     for (g, names) in memo_bases(Tier::Quick) {
@@ -1105,6 +1142,55 @@ pub fn c13(tier: Tier) -> Vec<Case> {
                         let fam = format!("include-overlapping-names/{bn}");
                         if b.add_variant(grp, 0, &fam, r_inc, inputs.clone(), "include") {
                             b.add_variant(grp, 1, &fam, r_inl, inputs.clone(), "inlined");
+                        }
+                    }
+                }
+            }
+        }
+    }
+    // includes directly under `&` and `!` (field-less bodies only: fields inside lookaheads are a documented restriction):
+    // the lookahead of an included body is the lookahead of the parenthesised body, in both skip modes, with blanks
+    {
+        let la_bodies: Vec<(&str, Expr)> = vec![
+            ("literal", lit("b")),
+            ("range", range('b', 'c')),
+            ("rule", rref("X")),
+            ("eoi", Expr::Eoi),
+            ("choice", choice(vec![lit("b"), lit("cc")])),
+            ("sequence", seq(vec![lit("b"), lit("b")])),
+            ("optional", opt(lit("b"))),
+        ];
+        for (bn, body) in &la_bodies {
+            for negative in [false, true] {
+                for root_noskip in [false, true] {
+                    for inc_noskip in [false, true] {
+                        for shape in 0..3 {
+                            let mk = |include: bool| -> Grammar {
+                                let piece = if include { inc("Inc") } else { group(body.clone()) };
+                                let la = if negative { not(piece) } else { and(piece) };
+                                let root_body = match shape {
+                                    0 => seq(vec![lit("c"), la, opt(field("f", "X")), opt(lit("c"))]),
+                                    1 => seq(vec![star(seq(vec![la, field("f", "X")])), opt(lit("c"))]),
+                                    _ => choice(vec![seq(vec![lit("c"), la, field("f", "X")]), seq(vec![lit("c"), opt(lit("c"))])]),
+                                };
+                                let mut rules = vec![
+                                    Rule::normal("Root", dirs(root_noskip, &[Directive::Export, Directive::Position]), root_body),
+                                    Rule::normal("X", vec![Directive::String, Directive::NoSkipWs], seq(vec![lit("b"), opt(lit("b"))])),
+                                ];
+                                if include {
+                                    rules.push(Rule::normal("Inc", dirs(inc_noskip, &[]), body.clone()));
+                                }
+                                Grammar { rules }
+                            };
+                            let (g_inc, g_inl) = (mk(true), mk(false));
+                            if !wf::well_formed(&g_inl) || !wf::well_formed(&g_inc) {
+                                continue;
+                            }
+                            let grp = b.new_group();
+                            let fam = format!("include-under-lookahead/{bn}");
+                            if b.add_variant(grp, 0, &fam, g_inc, inputs.clone(), "include") {
+                                b.add_variant(grp, 1, &fam, g_inl, inputs.clone(), "inlined");
+                            }
                         }
                     }
                 }
@@ -1450,6 +1536,21 @@ pub fn c19(tier: Tier) -> Vec<Case> {
             if b.add("trace/long", g, InputSpec::List(inputs.clone())) {
                 b.last().note = "indented-all".into();
             }
+        }
+    }
+    // many rule entries in a row at one offset (no progress in between): choices of 254..300 alternatives that each enter
+    // the same nullable rule before they fail on a literal; only the last alternative matches
+    for n in [254usize, 255, 256, 257, 300] {
+        let alts: Vec<Expr> = (0..n).map(|i| seq(vec![rref("E"), lit(&format!("k{i};"))])).collect();
+        let g = Grammar {
+            rules: vec![
+                Rule::normal("Root", vec![Directive::Export, Directive::NoSkipWs], choice(alts)),
+                Rule::normal("E", vec![Directive::NoSkipWs], opt(lit("q"))),
+            ],
+        };
+        let inputs = vec![format!("k{};", n - 1), "k0;".to_string(), "z".to_string(), format!("qk{};", n - 1), String::new()];
+        if b.add("trace/many-entries-at-one-offset", g, InputSpec::List(inputs)) {
+            b.last().note = "indented-all".into();
         }
     }
     for c in c07(Tier::Quick) {
